@@ -36,4 +36,53 @@ def qLine (ws : List String) : String := Id.run do
     issues := issues ++ [s!"DIFF model result differs (ret model {mret} impl {ret}, first differing position {firstDiff})"]
   if issues.isEmpty then "ok" else " ## ".intercalate issues
 
+/-- `QC` lines: one private building block of the sort against its model, plus the block's own contract -/
+def qcLine (ws : List String) : String := Id.run do
+  let get := fun k => (field ws k).getD ""
+  let which := (get "which").toNat?.getD 99
+  let shift := (get "shift").toNat?.getD 0
+  let arg := (get "arg").toNat?.getD 0
+  let data := parseDotArr (get "data")
+  let out := parseDotArr (get "out")
+  let r := (get "r").toNat?.getD 0
+  let b : Bool := get "b" = "1"
+  let n := data.size
+  let lt : Nat → Nat → Bool := fun a b => decide ((a >>> shift) < (b >>> shift))
+  let sorted := fun (a : Array Nat) => (List.range (a.size - 1)).all fun i => !(lt (a.getD (i + 1) 0) (a.getD i 0))
+  let mut issues : List String := []
+  if sortedCopy data ≠ sortedCopy out then issues := issues ++ ["ORACLE C18 a building block of the sort lost or duplicated an element"]
+  let start : PS.PArr data := ⟨data, Array.Perm.refl data⟩
+  let name := ["insertion_sort", "partial_insertion_sort", "heapsort", "partition", "partition_equal", "break_patterns", "choose_pivot"].getD which "?"
+  let (mr, mb, m) : Nat × Bool × Array Nat := match which with
+    | 0 => let (_, s) := (PS.insertionSort lt 0 n).run start; (0, false, s.val)
+    | 1 => let (x, s) := (PS.partialInsertionSort lt 0 n).run start; (0, x, s.val)
+    | 2 => let (_, s) := (PS.heapsort lt 0 n).run start; (0, false, s.val)
+    | 3 => let (x, s) := (PS.partition lt 0 n arg).run start; (x.1, x.2, s.val)
+    | 4 => let (x, s) := (PS.partitionEqual lt 0 n arg).run start; (x, false, s.val)
+    | 5 => let (_, s) := (PS.breakPatterns (a0 := data) 0 n).run start; (0, false, s.val)
+    | _ => let (x, s) := (PS.choosePivot lt 0 n).run start; (x.1, x.2, s.val)
+  if m ≠ out || mr ≠ r || mb ≠ b then
+    let firstDiff := (List.range (min m.size out.size)).find? (fun i => m[i]! != out[i]!)
+    issues := issues ++ [s!"DIFF {name}: model result differs (model {mr}/{mb} impl {r}/{b}, first differing position {firstDiff})"]
+  -- the block's contract on the implementation's output
+  match which with
+  | 0 | 2 => if !sorted out then issues := issues ++ [s!"ORACLE C18 {name} left its slice not in non-decreasing order under the comparison"]
+  | 1 => if b && !sorted out then issues := issues ++ ["ORACLE C18 partial_insertion_sort reported 'sorted' for a slice that is not in order"]
+  | 3 =>
+    let p := out.getD r 0
+    if r ≥ n then issues := issues ++ ["ORACLE C18 partition returned a split point outside the slice"]
+    else
+      if (p >>> shift) ≠ ((data.getD arg 0) >>> shift) then issues := issues ++ ["ORACLE C18 partition did not place the pivot at the split point"]
+      if !((List.range r).all fun i => lt (out.getD i 0) p) then issues := issues ++ ["ORACLE C18 partition left an element not smaller than the pivot in front of it"]
+      if !((List.range (n - r - 1)).all fun i => !(lt (out.getD (r + 1 + i) 0) p)) then issues := issues ++ ["ORACLE C18 partition left an element smaller than the pivot behind it"]
+  | 4 =>
+    let p := data.getD arg 0
+    if r > n || r = 0 then issues := issues ++ ["ORACLE C18 partition_equal returned a split point outside the slice"]
+    else
+      if !((List.range r).all fun i => !(lt p (out.getD i 0))) then issues := issues ++ ["ORACLE C18 partition_equal left an element greater than the pivot in the equal part"]
+      if !((List.range (n - r)).all fun i => lt p (out.getD (r + i) 0)) then issues := issues ++ ["ORACLE C18 partition_equal left an element equal to the pivot in the greater part"]
+  | 6 => if r ≥ n then issues := issues ++ ["ORACLE C18 choose_pivot returned an index outside the slice"]
+  | _ => pure ()
+  if issues.isEmpty then "ok" else " ## ".intercalate issues
+
 end NucleoVerif.Driver
